@@ -48,7 +48,7 @@ def search(prop, violations, work):
         fam = family(v['unit'])
         if prop in ('C15', 'C16') and re.search(r'^(structure|control)\.', v['unit']):
             fam = fam_inject_log
-        if prop == 'C12' and re.search(r'^c13\.', v['unit']):
+        if prop == 'C12' and re.search(r'^c13\.(write|read|buffer)', v['unit']):
             fam = fam_serial_then_stream
         if fam is None:
             continue
